@@ -83,10 +83,16 @@ def run(tier, rep):
     ov = {"IDF035": 0, "IDF037_01": 15, "IDF038_01": 15}
     pl, _ = gen_messages.build("4076_201", corp.bundle, rnd, values="random", count="typ", overrides=ov)
     cases.append(("4076_201", pl))
-    pl, _ = gen_messages.build("1077", corp.bundle, rnd, values="random", count="typ",
-                               mask={"DF394": (1 << 64) - 1 >> 20 << 20, "DF395": 0b111 << 20, "DF396": "full"})
-    if pl:
-        cases.append(("1077", pl))
+    # single-level three-digit indices: > 99 cells / > 99 characters
+    for mident in ("1071", "1074", "1124"):
+        pl, _ = gen_messages.build(mident, corp.bundle, rnd, values="random", count="typ",
+                                   mask={"DF394": ((1 << 40) - 1) << 20, "DF395": 0b111 << 20, "DF396": "full"})
+        if pl:
+            cases.append((mident, pl))
+    for tident, ov in (("1007", {"DF029": 120}), ("1033", {"DF029": 101, "DF227": 130}), ("1029", {"DF139": 150})):
+        pl, _ = gen_messages.build(tident, corp.bundle, rnd, values="random", count=3, overrides=ov)
+        if pl:
+            cases.append((tident, pl))
     for ident in ("1059", "1065", "4076_025", "4076_066", "1302"):  # nested groups
         if ident in corp.bundle["defs"]:
             pl, _ = gen_messages.build(ident, corp.bundle, rnd, values="random", count=12)
